@@ -12,6 +12,7 @@ IMPL = ('parsec/interfaces/ptg/ptg-compiler: parsec.y (function rule), jdf.c (jd
         'jdf_generate_dataflow, jdf_generate_one_function); the parsec-ptgpp executable end to end')
 ENGINE = 'lean-seq'
 LEVEL = 'other'
+BUILD_TARGETS = ('parsec-ptgpp',)      # the compiler and the parsec-base library it links; libparsec itself is not needed
 
 ACC_KW = {'c': 'CTL', 'r': 'READ', 'w': 'WRITE', 'x': 'RW'}
 
@@ -925,6 +926,8 @@ K_STRBUF = 'F8-lexer-string-buffer-overflow'
 K_DERIVED = 'F9-local-definition-in-derived-local'
 K_PRIO = 'F10-unbound-variable-in-priority-not-checked'
 K_CALLLDEF = 'F11-local-definition-on-call-of-data-input'
+K_DUPFLOW = 'F12-two-flows-with-the-same-name-not-detected'
+K_DUPLOCAL = 'F13-derived-local-defined-twice-not-detected'
 
 
 def classify_uncompilable(o, L):
@@ -944,10 +947,15 @@ def classify_uncompilable(o, L):
             kinds.add('redecl')
         else:
             kinds.add('other')
-    diagnosed = bool(re.search(r'^(Fatal Error|Warning|Error) on ', err, re.M)) or 'parse error' in err
-    if o['mode'] == 0 and diagnosed and ('limit' in kinds or 'other' in kinds) and not (kinds & {'twodata', 'noldef', 'redecl'}):
-        # ptgpp saw and reported the problem; without --Werror main() ignores the (negative) answer of jdf_sanity_checks
+    if o['mode'] == 0 and (re.search(r'^Fatal Error on (?![^\n]*During code generation)', err, re.M) or
+                           (limit_warnings(err) and kinds == {'limit'})):
+        # the sanity checks saw and reported a fatal problem; without --Werror main() ignores their (negative) answer
         return K_DEFAULT, es
+    if any("duplicate member '_f_" in l for l in ccerr.splitlines()):
+        return K_DUPFLOW, es
+    m = re.search(r"duplicate member '(\w+)'", ccerr)
+    if m and len(re.findall(r'^\s*%s\s*=[^=]' % re.escape(m.group(1)), open(o['jdf']).read(), re.M)) > 1:
+        return K_DUPLOCAL, es
     if kinds == {'limit'}:
         fired = set(e[0] for e in fired_errors(o, L))
         if fired <= {'flows', 'unused'}:
@@ -1118,9 +1126,10 @@ def setup_env(ctx, res):
     exe = os.path.join(cache, 'C24-' + hh.hexdigest()[:16])
     extra = ['-Dmain=ptgpp_main', '-I' + src, '-I' + gen, '-w', '-fsanitize-recover=shift',
              os.path.join(src, 'jdf.c'), os.path.join(src, 'jdf2c.c'), os.path.join(src, 'jdf_unparse.c'),
-             os.path.join(gen, 'parsec.y.c'), os.path.join(gen, 'parsec.l.c')]
+             os.path.join(gen, 'parsec.y.c'), os.path.join(gen, 'parsec.l.c'),
+             os.path.join(ctx.build, 'parsec', 'libparsec-base.a')]
     if not os.path.exists(exe):
-        ok, log = pv.cc_harness(os.path.join(pv.ROOT, 'harness', 'C24.c'), exe + '.tmp', ctx.build, extra=extra, sanitize=True)
+        ok, log = pv.cc_harness(os.path.join(pv.ROOT, 'harness', 'C24.c'), exe + '.tmp', ctx.build, extra=extra, sanitize=True, link_parsec=False)
         if not ok:
             res.infra_errors.append('harness compile failed: ' + log[-1500:])
             return None
